@@ -57,6 +57,9 @@ Definition refresh (b : bus) (ps : list (N * Z)) : list (N * N * Z) :=
 Fixpoint any_dup (names : list N) (known : list (N * Z)) : bool :=
   match names with [] => false | n :: r => has n known || existsb (N.eqb n) r || any_dup r known end.
 
+(* parameters can be declared only before init_params builds the broadcast message (uros raises afterwards) *)
+Definition initialised (b : bus) : bool := match cparams b with Some _ => true | None => false end.
+
 Definition step (b : bus) (o : op) : bus * out :=
   match o with
   | NewPub t y =>
@@ -75,7 +78,7 @@ Definition step (b : bus) (o : op) : bus * out :=
   | Lock =>
       (* uros.Logger(core): declares "logger/dt" (name 999, 5 ms), subscribes to every published topic in registry
          order, follows the params topic, then locks *)
-      if locked b || has 999 (declared b) then (b, OErr)
+      if locked b || has 999 (declared b) || initialised b then (b, OErr)
       else
         let newsubs := map (fun it => (nsub b + N.of_nat (fst it), fst (snd it))) (combine (seq 0 (length (pubs b))) (pubs b)) in
         let pid := match filter (fun s => N.eqb (snd s) 0) newsubs with s :: _ => fst s | [] => 0 end in
@@ -83,7 +86,7 @@ Definition step (b : bus) (o : op) : bus * out :=
             declared := declared b ++ [(999, 5%Z)]; cparams := cparams b;
             pnodes := pnodes b ++ [(pid, [999])]; caches := caches b ++ [(pid, 999, 5%Z)] |}, OOk [])
   | NewParamNode names vals =>
-      if locked b || any_dup names (declared b) || negb (Nat.eqb (length names) (length vals)) then (b, OErr)
+      if locked b || any_dup names (declared b) || negb (Nat.eqb (length names) (length vals)) || initialised b then (b, OErr)
       else let id := nsub b in
            ({| pubs := pubs b; subs := subs b ++ [(id, 0)]; nsub := id + 1; locked := locked b;
                declared := declared b ++ combine names vals; cparams := cparams b;
